@@ -277,7 +277,7 @@ example : absorbAccel Sha256.H0 [(.shani, List.replicate 64 0x61), (.sse2, List.
 /-! ## P2/P3: AES-NI (`crypto_aes_aesni.c`)
 
 `Model.CpuAesni.Fips` is a self-contained transcription of FIPS-197 (C02 owns `Spec.Aes`; the two
-are to be identified when merged); FIPS-197 Appendix C.1 / C.3 are proved about it (and about the
+are identified at the end of this file: `fips_transcription_eq_spec`, `aesni_encrypt_eq_spec`); FIPS-197 Appendix C.1 / C.3 are proved about it (and about the
 AES-NI model) by kernel evaluation in `KAT/CpuAesni.lean`. -/
 
 section aesni
@@ -416,5 +416,252 @@ theorem exec_xform_schedule (blk : List UInt8) (h : blk.length = 64) :
 example : (List.replicate 64 (0 : UInt8)).length = 64 := by decide
 
 end exec
+
+/-! ## `pmodel cpu`, the remaining op families
+
+`aesblock` and `ctr` are computed by `Model.CpuStep.aesBlock` / `ctrStream` through the transcription
+`Model.CpuAesni.Fips`; `Proofs/CpuAesSpec.lean` proves that transcription equal to `Spec.Aes` (S-box by inversion = the table of
+Figure 7, state as lanes = state as bytes, schedule kept newest first = sliding window), so the theorems below are stated
+against `Spec.Aes.encryptBlock` and `Spec.Ctr.stream` — the objects of C02's theorems.  `l2Of`, `CtrPathOk`, `L2Agrees`,
+`niEnc`, `niEncB` are defined (with their meaning) in `Proofs/CpuStep.lean`.
+
+Op families of `stepOp` and their theorems: `crc` — `exec_crc_line`; `xform` — `exec_xform_schedule`, `exec_xform_line`;
+`sha` — `exec_sha_line`; `aesblock` — `exec_aesblock`; `ctr` — `exec_ctr`; `insn crc32 / aesenc / aesenclast / keygen*` —
+`exec_insn_crc32`, `exec_insn_aes`; `insn rnds2 / msg1 / msg2 / alignr4 / srli64_*` — none: the answer is the SDM
+transcription itself (the trusted base of `shani_*` / `sse2_*` above, which are about compositions of these instructions);
+`path` / `force` — constants (the arguments are echoed by `render`). -/
+section bridge
+open Percival.Model.CpuAesni Percival.Proofs.CpuAesni
+
+/-- **The FIPS-197 transcription `Model.CpuAesni.Fips` is `Spec.Aes`.**  The S-box computed as inverse in GF(2⁸) followed
+    by the affine map is the table of Figure 7 (all 256 bytes); for a 128/256-bit key the round keys of the
+    transcription (schedule kept newest first, as lanes) are `Spec.Aes.keyExpansion` (sliding window, as byte strings);
+    and the cipher gives `Spec.Aes.encryptBlock` on every block (`R.bytes`: the register in memory order).  Every
+    theorem of the AES-NI section above that mentions `Fips.…` is thereby a theorem about `Spec.Aes`. -/
+theorem fips_transcription_eq_spec :
+    (∀ b, Fips.sbox b = Aes.sbox b) ∧
+    ∀ key : List UInt8, key.length = 16 ∨ key.length = 32 →
+      (Fips.roundKeys (Fips.keyExpansion (Fips.keyWords key))).map R.bytes = Aes.keyExpansion key ∧
+      ∀ inp : R, (Fips.encrypt (Fips.keyWords key) inp).map R.bytes = some (Aes.encryptBlock key inp.bytes) :=
+  ⟨Proofs.CpuAesSpec.sbox_eq, fun key h =>
+    ⟨Proofs.CpuAesSpec.roundKeys_eq_spec key h, Proofs.CpuAesSpec.encrypt_eq_spec key h⟩⟩
+
+example : Fips.sbox 0x53 = 0xed ∧ Aes.sbox 0x53 = 0xed ∧ (List.replicate 32 (9 : UInt8)).length = 32 := by decide +kernel
+
+/-- **AES-NI key expansion + block encryption = `Spec.Aes.encryptBlock`** (`aesni_encrypt_eq_fips` carried over to the
+    Spec shared with C02), and the round keys made by `MKRKEY128` / `MKRKEY256` are `Spec.Aes.keyExpansion` of the key bytes. -/
+theorem aesni_encrypt_eq_spec (key : List UInt8) (inp : R) (h : key.length = 16 ∨ key.length = 32) :
+    (aesniEncrypt key inp).map R.bytes = some (Aes.encryptBlock key inp.bytes) := by
+  rw [aesniEncrypt_eq key inp h]; exact Proofs.CpuAesSpec.encrypt_eq_spec key h inp
+
+theorem aesni_round_keys_eq_spec (k0 k1 : R) :
+    (expand128 k0).map (·.map R.bytes) = some (Aes.keyExpansion k0.bytes) ∧
+    (expand256 k0 k1).map (·.map R.bytes) = some (Aes.keyExpansion (k0.bytes ++ k1.bytes)) := by
+  have h1 : Fips.keyWords k0.bytes = k0.words := by
+    obtain ⟨⟨_, _, _, _⟩, ⟨_, _, _, _⟩, ⟨_, _, _, _⟩, ⟨_, _, _, _⟩⟩ := k0; rfl
+  have h2 : Fips.keyWords (k0.bytes ++ k1.bytes) = k0.words ++ k1.words := by
+    obtain ⟨⟨_, _, _, _⟩, ⟨_, _, _, _⟩, ⟨_, _, _, _⟩, ⟨_, _, _, _⟩⟩ := k0
+    obtain ⟨⟨_, _, _, _⟩, ⟨_, _, _, _⟩, ⟨_, _, _, _⟩, ⟨_, _, _, _⟩⟩ := k1; rfl
+  constructor
+  · rw [expand128_eq, Option.map_some, ← h1, Proofs.CpuAesSpec.roundKeys_eq_spec _ (Or.inl rfl)]
+  · rw [expand256_eq, Option.map_some, ← h2, Proofs.CpuAesSpec.roundKeys_eq_spec _ (Or.inr rfl)]
+
+/-- FIPS-197 C.3 (AES-256) through the AES-NI model, read off `Spec.Aes` -/
+example : (aesniEncrypt (List.range 32 |>.map UInt8.ofNat)
+      ⟨⟨0x00, 0x11, 0x22, 0x33⟩, ⟨0x44, 0x55, 0x66, 0x77⟩, ⟨0x88, 0x99, 0xaa, 0xbb⟩, ⟨0xcc, 0xdd, 0xee, 0xff⟩⟩).map R.bytes =
+    some [0x8e, 0xa2, 0xb7, 0xca, 0x51, 0x67, 0x45, 0xbf, 0xea, 0xfc, 0x49, 0x90, 0x4b, 0x49, 0x60, 0x89] := by
+  rw [aesni_encrypt_eq_spec _ _ (by decide)]
+  exact congrArg some (by decide +kernel)
+
+end bridge
+
+section exec2
+open Percival.Model.CpuStep Percival.Proofs.CpuStep
+
+/-- **An `aesblock` line, for every build, is judged by `Spec.Aes`.**  For a 128/256-bit key and a 16-byte block the
+    answer of `stepOp` (computed through the transcription `Model.CpuAesni.Fips`, proved equal to `Spec.Aes` in
+    `Proofs/CpuAesSpec.lean`) is `Spec.Aes.encryptBlock` under the FIPS-197 key expansion — and so is what the model of
+    each code path a build can route to computes: the software path (`crypto_aes_key_expand` = FIPS-197 KeyExpansion,
+    `crypto_aes_encrypt_block` = Cipher: `Model.AesStep`), and `crypto_aes_key_expand_aesni` +
+    `crypto_aes_encrypt_block_aesni` by the instruction-level model of C03 (`Model.CpuAesni`) and by that of C02
+    (`Model.AesNi`).  (The line has no L2 part.) -/
+theorem exec_aesblock (cfg : Cfg) (key blk : List UInt8) (hk : key.length = 16 ∨ key.length = 32)
+    (hb : blk.length = 16) :
+    stepOp cfg (.aesblock key blk) = .block (Aes.encryptBlock key blk) ∧
+    (Model.AesStep.expandKey key).map (fun rks => Model.AesStep.enc rks blk) = some (Aes.encryptBlock key blk) ∧
+    (Model.CpuAesni.R.ofBytes blk).bind (fun b => (Model.CpuAesni.aesniEncrypt key b).map (·.bytes)) =
+      some (Aes.encryptBlock key blk) ∧
+    (Model.AesNi.keyExpand key).bind (Model.AesNi.encryptBlock blk) = some (Aes.encryptBlock key blk) := by
+  refine ⟨?_, ?_, aesni_bytes_eq_spec key blk hk hb, Proofs.AesStep.niKey_encrypt key blk hk hb⟩
+  · simp only [stepOp, aesBlock_eq_spec key blk hk hb]
+  · obtain ⟨hwf, hx⟩ := Proofs.AesStep.expandKey_eq key hk
+    rw [hx]; rfl
+
+/-- the hypotheses hold for the key and block of FIPS-197 C.1; the line is then the published ciphertext -/
+example : stepOp ⟨.other, none⟩ (.aesblock [0, 1, 2, 3, 4, 5, 6, 7, 8, 9, 10, 11, 12, 13, 14, 15]
+      [0x00, 0x11, 0x22, 0x33, 0x44, 0x55, 0x66, 0x77, 0x88, 0x99, 0xaa, 0xbb, 0xcc, 0xdd, 0xee, 0xff]) =
+    .block [0x69, 0xc4, 0xe0, 0xd8, 0x6a, 0x7b, 0x04, 0x30, 0xd8, 0xcd, 0xb7, 0x80, 0x70, 0xb4, 0xc5, 0x5a] := by
+  rw [(exec_aesblock _ _ _ (by decide) (by decide)).1]
+  exact congrArg Out.block (by decide +kernel)
+
+/-- outside the contract of `crypto_aes_key_expand` / of a block (what the harness also answers with `bad-op`) -/
+theorem exec_aesblock_bad (cfg : Cfg) (key blk : List UInt8)
+    (h : ¬ ((key.length = 16 ∨ key.length = 32) ∧ blk.length = 16)) :
+    stepOp cfg (.aesblock key blk) = .badOp := by
+  simp only [stepOp, aesBlock_none key blk h]
+
+example : ¬ (((List.replicate 24 (0 : UInt8)).length = 16 ∨ (List.replicate 24 (0 : UInt8)).length = 32) ∧
+    (List.replicate 16 (0 : UInt8)).length = 16) := by decide
+
+/-- **A `ctr` line, for every build, is judged by `Spec.Ctr` over `Spec.Aes`.**  For a 128/256-bit key and an 8-byte
+    nonce field `be64(nonce)` (every 8-byte string is one: `exec_ctr_every_nonce_field`):
+
+    * L1: the bytes `stepOp` answers are SP 800-38A CTR — `Spec.Ctr.stream`, the function of C02's theorems — of
+      `Spec.Aes.encryptBlock key`, nonce `nonce`, of the data;
+    * L2 (`l2Of`): `bytectr = data.length`; nonce half of `pblk` = `be64(nonce)`; counter half = `be64(⌈n/16⌉ − 1)` (`none` =
+      only byte 15 = 0xff is determined, before the first block); `buf` = the keystream block `n / 16` when `n` is not
+      a multiple of 16 (else not shown);
+    * **the routed code paths give exactly this** (`CtrPathOk`): run C02's statement-level model of
+      crypto_aesctr*.c — `crypto_aesctr_init` on a fresh object with any memory contents `raw`, then one
+      `crypto_aesctr_stream` per call for **every partition** `calls` of the data into calls (0-length, < 16, ≥ 16, …)
+      and **every routing** of each call (`hw`: portable byte/block loop or the AES-NI bulk loop) — over each of the
+      three block functions a build can have: FIPS-197 under the software-expanded key (`Model.AesStep.enc`), the
+      AES-NI instruction model of C03 (`niEnc`), the AES-NI instruction model of C02 (`niEncB`).  No call fails, every
+      call returns as many bytes as it was given, the concatenated outputs are the L1 part, and what the harness shows
+      of the final `struct crypto_aesctr` is the L2 part.  Needs `data.length < 2⁶⁴` (`uint64_t bytectr`).
+
+    The buffer alignments and the in-place flag of the protocol line are not part of the typed op (`parse` drops them:
+    `Model.AesCtr` has no addresses); the partition is dropped too — it is universally quantified here. -/
+theorem exec_ctr (cfg : Cfg) (key data : List UInt8) (nonce : UInt64) (hk : key.length = 16 ∨ key.length = 32) :
+    stepOp cfg (.ctr key (Ctr.be64 nonce.toNat) data) =
+      .ctr (Ctr.stream (Aes.encryptBlock key) nonce data) (l2Of key nonce data) ∧
+    ∀ (raw : Model.AesCtr.Raw) (calls : List Model.AesCtr.Call), raw.pblk.length = 16 →
+      (calls.map (·.data)).flatten = data → data.length < 2^64 →
+      (∃ rks, Model.AesStep.expandKey key = some rks ∧
+        CtrPathOk Model.AesStep.enc rks raw nonce calls (Ctr.stream (Aes.encryptBlock key) nonce data)
+          (l2Of key nonce data)) ∧
+      CtrPathOk niEnc ⟨key, hk⟩ raw nonce calls (Ctr.stream (Aes.encryptBlock key) nonce data) (l2Of key nonce data) ∧
+      CtrPathOk niEncB ⟨key, hk⟩ raw nonce calls (Ctr.stream (Aes.encryptBlock key) nonce data)
+        (l2Of key nonce data) := by
+  refine ⟨by simp only [stepOp, ctrStream_eq_spec key data nonce hk], ?_⟩
+  intro raw calls hraw hdata hlim
+  subst hdata
+  obtain ⟨hwf, hx⟩ := Proofs.AesStep.expandKey_eq key hk
+  exact ⟨⟨_, hx, ctrPath_ok Model.AesStep.enc Proofs.AesStep.enc_length _ key (fun _ _ => rfl) raw hraw nonce calls hlim⟩,
+    ctrPath_ok niEnc niEnc_length ⟨key, hk⟩ key (niEnc_eq_spec ⟨key, hk⟩) raw hraw nonce calls hlim,
+    ctrPath_ok niEncB niEncB_length ⟨key, hk⟩ key (niEncB_eq_spec ⟨key, hk⟩) raw hraw nonce calls hlim⟩
+
+/-- AES-128, nonce 0x0102030405060708, 20 zero bytes (one whole block and four bytes of the next): the line
+    `ecc8…8841 | bytectr=20 pblk=0102030405060708 0000000000000001 buf=b9dc…d327`; and a partition of these 20 bytes into
+    three calls (3 bytes; 0 bytes; 17 bytes on the bulk loop) to which the second half of the theorem applies -/
+example : stepOp ⟨.software, none⟩ (.ctr (List.replicate 16 1) [1, 2, 3, 4, 5, 6, 7, 8] (List.replicate 20 0)) =
+      .ctr [0xec, 0xc8, 0xe1, 0xec, 0x1c, 0x04, 0xe7, 0xaf, 0x13, 0x7b, 0x1e, 0x76, 0xd5, 0x43, 0xbc, 0x5e, 0xb9, 0xdc, 0x88, 0x41]
+        { bytectr := 20, nonce := [1, 2, 3, 4, 5, 6, 7, 8], counter := some [0, 0, 0, 0, 0, 0, 0, 1],
+          buf := [0xb9, 0xdc, 0x88, 0x41, 0x14, 0x95, 0xcb, 0xcd, 0xa7, 0xf0, 0x1d, 0x18, 0xea, 0xf3, 0xd3, 0x27] } ∧
+    (([⟨[0, 0, 0], true⟩, ⟨[], false⟩, ⟨List.replicate 17 0, true⟩] : List Model.AesCtr.Call).map (·.data)).flatten =
+      List.replicate 20 0 ∧ (List.replicate 20 (0 : UInt8)).length < 2^64 := by
+  refine ⟨?_, by decide, by decide⟩
+  have h := (exec_ctr ⟨.software, none⟩ (List.replicate 16 1) (List.replicate 20 0) 0x0102030405060708 (by decide)).1
+  rw [show Ctr.be64 (0x0102030405060708 : UInt64).toNat = [1, 2, 3, 4, 5, 6, 7, 8] by decide] at h
+  rw [h]
+  exact congr (congrArg Out.ctr (by decide +kernel)) (by simp only [l2Of, CtrL2.mk.injEq]; decide +kernel)
+
+/-- the nonce field of a `ctr` line is any 8-byte string: each is `be64` of a 64-bit nonce, so `exec_ctr` covers them all -/
+theorem exec_ctr_every_nonce_field (nb : List UInt8) (hn : nb.length = 8) : ∃ nonce : UInt64, Ctr.be64 nonce.toNat = nb :=
+  be64_surj nb hn
+
+example : ([0xff, 0, 1, 2, 3, 4, 5, 0x80] : List UInt8).length = 8 := by decide
+
+/-- outside the contract (key length, nonce field): `bad-op`, as the harness -/
+theorem exec_ctr_bad (cfg : Cfg) (key nb data : List UInt8)
+    (h : ¬ ((key.length = 16 ∨ key.length = 32) ∧ nb.length = 8)) :
+    stepOp cfg (.ctr key nb data) = .badOp := by
+  simp only [stepOp, ctrStream_none key nb data h]
+
+example : ¬ (((List.replicate 16 (0 : UInt8)).length = 16 ∨ (List.replicate 16 (0 : UInt8)).length = 32) ∧
+    ([1, 2, 3] : List UInt8).length = 8) := by decide
+
+/-- **A `sha` / `shaparts` line.**  The answer is `Spec.Sha256.hash` of the data (no L2 part; `parse` concatenates the
+    parts of `shaparts`), and that is what every accelerated build computes: cut the padded message into its 64-byte
+    blocks and compress each block with whichever accelerated transform (`SHA256_Transform_sse2` or `_shani`, the
+    choice free per block) — the digest of the final chaining value is the L1 part. -/
+theorem exec_sha_line (cfg : Cfg) (data : List UInt8) :
+    stepOp cfg (.sha data) = .digest (Sha256.hash data) ∧
+    ∀ calls : List (ShaPath × List UInt8), (∀ pb ∈ calls, pb.2.length = 64) →
+      (calls.map (·.2)).flatten = data ++ MD.padding Sha256.params data.length →
+      (absorbAccel Sha256.H0 calls).map Sha256.out = some (Sha256.hash data) := by
+  refine ⟨rfl, fun calls h hcut => ?_⟩
+  rw [absorbAccel_eq Sha256.H0 calls h, Option.map_some]
+  have := absorb_flatten Sha256.params (calls.map (·.2)) Sha256.H0 (by
+    intro b hb
+    obtain ⟨pb, hpb, rfl⟩ := List.mem_map.mp hb
+    exact h pb hpb)
+  rw [hcut] at this
+  show some (Sha256.out _) = some (Sha256.params.out (MD.absorb Sha256.params Sha256.H0 _))
+  rw [this]; rfl
+
+/-- "abc": one padded block, through the SHA-NI transform -/
+example : ([(ShaPath.shani, 0x61 :: 0x62 :: 0x63 :: 0x80 :: (List.replicate 59 0 ++ [0x18]))].map (·.2)).flatten =
+    [0x61, 0x62, 0x63] ++ MD.padding Sha256.params 3 := by decide
+
+/-- **An `xform` line, for every build.**  For a 32-byte chaining value and a 64-byte block: the L1 part is the FIPS
+    180-4 compression function (`Spec.Sha256.compress`) — which is also what the models of `SHA256_Transform_sse2` and
+    `SHA256_Transform_shani` compute — and the L2 part is the FIPS 180-4 message schedule of the block on the builds
+    that expose `W` (portable, SSE2), absent on the others. -/
+theorem exec_xform_line (cfg : Cfg) (s blk : List UInt8) (hs : s.length = 32) (hb : blk.length = 64) :
+    ∃ r, regsOfBytes s = some r ∧
+      stepOp cfg (.xform s blk) = .xform (Sha256.out (Sha256.compress r blk))
+        (match cfg.sha with
+          | .other => none
+          | _ => some (Sha256.schedule blk)) ∧
+      transformSse2 r blk = some (Sha256.compress r blk) ∧ transformShani r blk = some (Sha256.compress r blk) := by
+  obtain ⟨r, hr⟩ := regsOfBytes_some s hs
+  refine ⟨r, hr, ?_, transformSse2_eq r blk hb, transformShani_eq r blk hb⟩
+  simp only [stepOp, hr, hb, hs, and_self, if_true]
+  congr 1
+  cases cfg.sha
+  · rfl
+  · exact sse2W_eq blk hb
+  · rfl
+
+example : (List.replicate 32 (7 : UInt8)).length = 32 ∧ (List.replicate 64 (1 : UInt8)).length = 64 := by decide
+
+/-- out of contract sizes: `bad-op` -/
+theorem exec_xform_bad (cfg : Cfg) (s blk : List UInt8) (h : ¬ (s.length = 32 ∧ blk.length = 64)) :
+    stepOp cfg (.xform s blk) = .badOp := by
+  simp only [stepOp]
+  split
+  · rw [if_neg (fun hc => h ⟨hc.2, hc.1⟩)]
+  · rfl
+
+example : ¬ ((List.replicate 32 (7 : UInt8)).length = 32 ∧ (List.replicate 63 (1 : UInt8)).length = 64) := by decide
+
+/-- **`insn crc32`**: the `CRC32` instruction on a 1-, 4- or 8-byte source is the byte step of the CRC folded over the
+    source bytes in address order (`crc32_u8_eq_byte_step`: the reflected Castagnoli step of the Spec) -/
+theorem exec_insn_crc32 (cfg : Cfg) (a b c d : UInt8) (src : List UInt8)
+    (h : src.length = 1 ∨ src.length = 4 ∨ src.length = 8) :
+    stepOp cfg (.insn (some (.crc32 [a, b, c, d] src))) = .insn (some (.word (src.foldl byteStep (le32 a b c d)))) := by
+  rw [stepOp_insn, insn_crc32 a b c d src h]
+
+example : stepOp ⟨.other, none⟩ (.insn (some (.crc32 [0x78, 0x3b, 0xf6, 0x82] [0x68]))) =
+    .insn (some (.word 282866004)) := by
+  rw [exec_insn_crc32 _ _ _ _ _ _ (by decide)]
+  exact congrArg (fun w => Out.insn (some (InsnRes.word w))) (by decide +kernel)
+
+/-- **`insn aesenc` / `aesenclast` / `keygen*`**: on 16-byte operands the SDM transcription of `Model.CpuAesni` that the
+    executable runs gives one FIPS-197 round (`Spec.Aes.round`: SubBytes, ShiftRows, MixColumns, AddRoundKey), the
+    final round (`Spec.Aes.finalRound`), and the same bytes as C02's independent transcription of `AESKEYGENASSIST`
+    (`Model.AesNi.aeskeygenassist`, over `Spec.Aes.subWord` / `rotWord`). -/
+theorem exec_insn_aes (cfg : Cfg) (a b : List UInt8) (imm : UInt8) (ha : a.length = 16) (hb : b.length = 16) :
+    stepOp cfg (.insn (some (.aesenc a b))) = .insn (some (.reg (Aes.round a b))) ∧
+    stepOp cfg (.insn (some (.aesenclast a b))) = .insn (some (.reg (Aes.finalRound a b))) ∧
+    stepOp cfg (.insn (some (.keygen imm a))) = .insn (some (.reg (Model.AesNi.aeskeygenassist a imm))) := by
+  obtain ⟨ra, _, rfl⟩ := Proofs.CpuAesSpec.ofBytes_bytes a ha
+  obtain ⟨rb, _, rfl⟩ := Proofs.CpuAesSpec.ofBytes_bytes b hb
+  exact ⟨by rw [stepOp_insn, insn_aesenc], by rw [stepOp_insn, insn_aesenclast], by rw [stepOp_insn, insn_keygen]⟩
+
+example : (List.replicate 16 (0x5a : UInt8)).length = 16 := by decide
+
+end exec2
 
 end Percival.C03
